@@ -218,6 +218,7 @@ def check_C11(pid, tier, seed, verdict):
     run = V.run_harness(pid, "wirepath", seed, tier, sp)
     res = V.run_trace(pid, "Trace_WireOrder.tla", "Trace_WireOrder.cfg", run["trace"])
     verdict.add_trace_result("wirepath", res, run)
+    pext = _protocol_pass(pid, tier, seed, verdict, mcs)
     cnt = res["cnt"]
     V.log(f"[{pid}] trace: {res['lines']} events, {cnt['scn']} schedules, {cnt['wf']} wire frames, drift={cnt['drift']}, "
           f"bad={len(res['bad'])}")
@@ -229,7 +230,7 @@ def check_C11(pid, tier, seed, verdict):
                "released a task the code had not parked (expected after the repair: the model without the repair is used on "
                "purpose)", V.sample_descrs(run["descr"]), True,
                dict(behaviours_generated=len(g2["scenarios"]) + len(uniq), behaviours_replayed=len(scs),
-                    trace_events=res["lines"], event_counts=cnt))
+                    trace_events=res["lines"], event_counts=cnt, **pext))
     return cov, ["pre-emption is only possible at hook points and transport operations (DESIGN C11 limits)",
                  "single-threaded runtime: atomicity between two hook points is that of the code between two awaits"]
 
@@ -289,6 +290,33 @@ def check_C14(pid, tier, seed, verdict):
                  "the peer's answers are delivered without transport delay beyond the configured round trip"]
 
 
+
+# ------------------------------------------------------------- extension: session protocol grammar
+def _protocol_pass(pid, tier, seed, verdict, mcs):
+    """Protocol.tla (per-endpoint grammar of the session protocol) on end-to-end executions through TLS: the
+    frames every real session receives / submits are reported by the cfg-guarded hooks rx / tx.  Verdicts
+    tagged with this property count; the others are printed as MODEL-DRIFT (they belong to another listed
+    property's check or to behaviour outside the list)."""
+    mcs.append(mc_must_hold(pid, verdict, "MC_Protocol.tla", "MC_Protocol.cfg" if tier == "thorough" else "MC_Protocol_small.cfg", workers=8))
+    for d in ("SynOvertaken", "PshAfterFin", "HbEchoTwice", "SynackTwice", "DataBeforeSynack"):
+        if tier == "thorough" or d in PROTO_DEVS.get(pid, ()):
+            mcs.append(mc_must_fail(pid, "MC_Protocol.tla", f"MC_Protocol_dev_{d}.cfg", workers=4))
+    prun = V.run_harness(pid, "proto", seed, tier)
+    pres = V.run_trace(pid, "Trace_Protocol.tla", "Trace_Protocol.cfg", prun["trace"])
+    mine = lambda b: b["why"].startswith(pid + ":") or not b["why"].startswith(("C08:", "C10:", "C11:", "ext:"))
+    drift = [b for b in pres["bad"] if not mine(b)]
+    pres = dict(pres)
+    pres["bad"] = [b for b in pres["bad"] if mine(b)]
+    for b in drift:
+        V.log(f"MODEL-DRIFT (extension Protocol.tla, not part of the verdict of {pid}): {b['why']}")
+    verdict.add_trace_result("proto", pres, prun)
+    V.log(f"[{pid}] protocol grammar (end to end): {pres['cnt']['scn']} rounds, {pres['cnt']['f']} frame events of real sessions "
+          f"judged, bad({pid})={len(pres['bad'])}, drift={len(drift)}")
+    return dict(protocol_rounds=pres["cnt"]["scn"], protocol_frame_events=pres["cnt"]["f"], protocol_drift=len(drift))
+
+
+PROTO_DEVS = {"C08": ("PshAfterFin",), "C10": ("SynackTwice", "DataBeforeSynack"), "C11": ("SynOvertaken",)}
+
 # ------------------------------------------------------------------------------------------- C10
 def check_C10(pid, tier, seed, verdict):
     thorough = tier == "thorough"
@@ -315,6 +343,7 @@ def check_C10(pid, tier, seed, verdict):
         V.log(f"MODEL-DRIFT (extension Negotiation.tla, not part of the verdict): {b['why']}")
     verdict.add_trace_result("nego", nres, nrun)
     mcs.append(ng)
+    pext = _protocol_pass(pid, tier, seed, verdict, mcs)
     cnt = res["cnt"]
     V.log(f"[{pid}] trace: {cnt['scn']} scenarios, {cnt['req']} requests, {cnt['done']} completions judged, "
           f"{cnt['taccept']} target accepts, bad={len(res['bad'])}; negotiation extension: {nres['cnt']['nego']} cases, "
@@ -327,7 +356,7 @@ def check_C10(pid, tier, seed, verdict):
                "application bytes pipelined before the reply; non-trivial = scenarios with at least one completion judged",
                V.sample_descrs(run["descr"]), True,
                dict(behaviours_generated=len(g["scenarios"]), behaviours_replayed=len(scs), trace_events=res["lines"],
-                    event_counts=cnt))
+                    event_counts=cnt, **pext))
     return cov, ["the 30 s SYNACK timeout of Client::create_proxy_stream (never answered / answered after the timeout / duplicate "
                  "answer / answer for an unknown id, against a scripted TLS server) costs 32 s of real time and runs in the "
                  "thorough tier only; the quick tier covers the timeout outcome at model level",
@@ -576,6 +605,7 @@ def check_C08(pid, tier, seed, verdict):
     crun = V.run_harness(pid, "close", seed, tier)
     cres = V.run_trace(pid, "Trace_Close.tla", "Trace_Close.cfg", crun["trace"])
     verdict.add_trace_result("close", cres, crun)
+    pext = _protocol_pass(pid, tier, seed, verdict, mcs)
     cnt, cc = res["cnt"], cres["cnt"]
     V.log(f"[{pid}] trace: receive side {cnt['scn']} scenarios / {cnt['fin']} FINs / {cnt['quiesce']} quiescence checks "
           f"(bad({pid})={len(mine['bad'])}); sending side {cc['scn']} proxied connections / {cc['cgot']} end-of-stream "
@@ -586,7 +616,7 @@ def check_C08(pid, tier, seed, verdict):
                "application closes with 0..300000 bytes in flight in either direction, sibling connections on the same sessions; "
                "the opposite endpoint must have received exactly what was sent and must observe end-of-stream (absence is judged "
                "after 3 s), and the other direction must keep carrying data", V.sample_descrs(crun["descr"]) + V.sample_descrs(run["descr"], 2),
-               True, dict(trace_events=res["lines"] + cres["lines"], event_counts=cnt, close_event_counts=cc))
+               True, dict(trace_events=res["lines"] + cres["lines"], event_counts=cnt, close_event_counts=cc, **pext))
     return cov, ["absence of end-of-stream is judged after 3 s of real time (all scenarios run concurrently)",
                  "release of per-stream state is checked through the table-size accessor on the in-memory rigs (FIN receipt); the "
                  "tables of sessions behind the real front-ends are not reachable"]
